@@ -8,7 +8,7 @@
 (* reported ("REJECT <line> <op> <failed checks>") and does not block the  *)
 (* rest of the trace, so one finding cannot hide another.                  *)
 (***************************************************************************)
-EXTENDS RtaBase, Json, IOUtils, TraceSupply, TraceArrival, TraceCost
+EXTENDS RtaBase, Json, IOUtils, TraceSupply, TraceArrival, TraceCost, TraceAnalyses
 
 Rec == ndJsonDeserialize(IOEnv.TRACE)
 
@@ -23,6 +23,10 @@ Fails(e) ==
       [] e.op = "steps" -> StepsFails(e)
       [] e.op = "cost" -> CostFails(e)
       [] e.op = "demand" -> DemandFails(e)
+      [] e.op = "search" -> SearchFails(e)
+      [] e.op = "maxrt" -> MaxRtFails(e)
+      [] e.op = "rta" -> RtaFails(e)
+      [] e.op = "agree" -> AgreeFails(e)
       [] e.op = "cost_trace" -> CostTraceFails(e)
       [] e.op = "cost_ext" -> CostExtFails(e)
       [] OTHER -> {"unknown_op"}
